@@ -1,4 +1,5 @@
 import SCModel.Props.C14
+import SCModel.Props.C14b
 /-!
 # C14d — the cached components are lossless: every cached answer IS the direct statistic
 
@@ -16,6 +17,8 @@ is the statistic of `Model/Stats.lean` that C08 / C09 / C10 characterise (`var f
    query (`freshAnswer_eq_direct`).
 3. Hence through the caches (`query_direct`) and along every history (`run_direct`, `history_direct`): every answer
    of every interleaving of layer calls and queries is the direct statistic of the function as it is at that moment.
+   The same for worlds of several objects (`stepDirect`, `runDirect`, `world_run_direct`): the cached world answers
+   every query of every multi-object history with the direct statistic of the addressed object's current function.
 4. A stale distribution cache is *observable*: two distributions that answer every ECDF query alike on their keys
    are equal (`uncum_injective`), and a witness where a stale `dist` gives a wrong variance (`stale_dist_wrong_var`).
 -/
@@ -136,6 +139,53 @@ theorem history_direct (f : Stairs Rat) (ops : List HOp) : ((fresh f).run ops).2
 theorem answers_depend_on_function_only (o o' : Obj) (q : Query) (h : CacheInv o) (h' : CacheInv o')
     (hf : o.f = o'.f) : (o.query q).2 = (o'.query q).2 := by
   rw [query_direct o q h, query_direct o' q h', hf]
+
+/-! ## 3b. worlds of several objects -/
+section world
+open SC.Props.C14b
+
+/-- the cache-free reference world of C14b with every query answered by the direct statistic -/
+def stepDirect (p : PWorld) (op : WOp) : PWorld × Out :=
+  match op with
+  | .layer i ts => (p.modify i (layerF · ts), if i < p.length then .done else .badIndex)
+  | .query i q =>
+    (p, match p[i]? with
+      | some f => .answer (direct f q)
+      | none => .badIndex)
+  | op =>
+    match computeFn p.fn op with
+    | some (.ok r) => (p ++ [r], .created p.length)
+    | some (.error e) => (p, .failed e)
+    | none => (p, .badIndex)
+
+def runDirect (p : PWorld) : List WOp → PWorld × List Out
+  | [] => (p, [])
+  | op :: r => ((runDirect (stepDirect p op).1 r).1, (stepDirect p op).2 :: (runDirect (stepDirect p op).1 r).2)
+
+theorem stepPure_eq_stepDirect (p : PWorld) (op : WOp) : stepPure p op = stepDirect p op := by
+  cases op with
+  | query i q =>
+    simp only [stepPure, stepDirect, freshAnswer_eq_direct]
+    cases p[i]? <;> rfl
+  | _ => rfl
+
+theorem runPure_eq_runDirect (p : PWorld) (ops : List WOp) : runPure p ops = runDirect p ops := by
+  induction ops generalizing p with
+  | nil => rfl
+  | cons op r ih => simp only [runPure, runDirect, stepPure_eq_stepDirect, ih]
+
+/-- **every multi-object history** (creating operations, layer calls and queries on arbitrary object numbers): the
+cached world's output stream is that of the cache-free world whose queries are the direct statistics -/
+theorem world_run_direct (w : World) (ops : List WOp) (h : WInv w) :
+    (runO w ops).2 = (runDirect (erase w) ops).2 ∧ erase (runO w ops).1 = (runDirect (erase w) ops).1 := by
+  rw [← runPure_eq_runDirect]
+  exact ⟨(run_refines_pure w ops h).1, (run_refines_pure w ops h).2.1⟩
+
+theorem world_run_direct_from_empty (ops : List WOp) :
+    (runO [] ops).2 = (runDirect [] ops).2 ∧ erase (runO [] ops).1 = (runDirect [] ops).1 := by
+  rw [← runPure_eq_runDirect]; exact run_refines_pure_from_empty ops
+
+end world
 
 /-! ## 4. non-vacuity, and a stale distribution is observable -/
 
